@@ -10,8 +10,10 @@ git status --short | grep -v '^ M tests/' > $d/verify.log
 CARGO_TARGET_DIR=$d/wt/target cargo nextest run --workspace --no-fail-fast --test-threads 8 --offline 2>&1 | grep -E "tests run" >> $d/verify.log
 git checkout -- tests 2>/dev/null
 demo() {
-  cd $d/out/demo 2>/dev/null || { bash $d/out/demo.sh; return; }
-  if [ -x ./run.sh ]; then CARGO_TARGET_DIR=$d/wt/target/demo ./run.sh
+  if [ -f $d/out/demo.sh ]; then bash $d/out/demo.sh; return; fi
+  cd $d/out/demo || return 2
+  if [ -f ./demo.sh ]; then bash ./demo.sh
+  elif [ -f ./run.sh ]; then CARGO_TARGET_DIR=$d/wt/target/demo bash ./run.sh
   elif grep -q "cargo test" README.md 2>/dev/null && ! grep -q "cargo run" README.md; then touch build.rs 2>/dev/null; CARGO_TARGET_DIR=$d/wt/target/demo cargo test --offline
   else touch build.rs 2>/dev/null; CARGO_TARGET_DIR=$d/wt/target/demo cargo run --offline; fi
 }
